@@ -28,11 +28,11 @@ RULE = ("for each language and each expression it passes to the matcher (header 
 ASSUMPTIONS = ["depth classes {0,1,>=2} are a sound abstraction: Balanced.accept depends on depth only through depth>0, "
                "depth==0 after decrement and depth<0, all of which are decided within the classes reached by witnesses",
                "token kinds are Pygments' STANDARD_TYPES; a lexer-specific custom token type would behave like its nearest standard ancestor"]
-BOUNDS = {"quick": dict(rand=3000, rlen=24), "thorough": dict(rand=200000, rlen=40)}
+BOUNDS = {"quick": dict(rand=16000, rlen=24), "thorough": dict(rand=200000, rlen=40)}
 EXHAUSTIVE = {"quick": True, "thorough": True}
 EXHAUSTIVE_SCOPE = {t: "all reachable (state, depth-class) configurations of every captured expression x all token classes"
                     for t in BOUNDS}
-MINIMUM = {"quick": {"monitor.transitions_counted": 20000, "monitor.consume_calls": 20000, "expressions.explored": 10},
+MINIMUM = {"quick": {"monitor.transitions_counted": 20000, "monitor.consume_calls": 20000, "expressions.explored": 10, "monitor.extract_headers_calls": 12000},
            "thorough": {"monitor.transitions_counted": 20000, "monitor.consume_calls": 20000, "expressions.explored": 10}}
 
 
@@ -51,9 +51,28 @@ def kinds():
     return out + [T.Text]
 
 
+def is_automaton(x):
+    return hasattr(x, "start") and hasattr(x, "is_accepting") and hasattr(x.start, "transition")
+
+
+def automaton_predicates(dfa):
+    """predicates on the transitions of an already built automaton (a language may hand the matcher a compiled DFA)"""
+    seen, out, stack = set(), [], [dfa.start]
+    while stack:
+        st = stack.pop()
+        if id(st) in seen:
+            continue
+        seen.add(id(st))
+        for pred, nxt in st.transition:
+            out.extend(all_predicates(pred))
+            stack.append(nxt)
+        stack.extend(getattr(st, "epsilon_transitions", []))
+    return out
+
+
 def distinguished_values(expr):
     vals = set()
-    for p in all_predicates(expr):
+    for p in (automaton_predicates(expr) if is_automaton(expr) else all_predicates(expr)):
         for k, v in vars(p).items():
             if isinstance(v, str):
                 vals.add(v)
@@ -71,6 +90,8 @@ def token_classes(expr):
 def build_dfa(expr):
     from codelimit.common.gsm.Expression import expression_to_nfa, nfa_to_dfa
 
+    if is_automaton(expr):
+        return expr
     return nfa_to_dfa(expression_to_nfa(expr))
 
 
@@ -178,6 +199,8 @@ def random_sequences(ctx, shard, exprs):
     n = shard["rand"] // shard["parts"]
     for i in range(n):
         lang, role, expr, base = exprs[rng.randrange(len(exprs))]
+        if is_automaton(expr):
+            continue  # a compiled automaton is exercised through the languages' own entry point in call_sequences
         classes = token_classes(expr)
         # bias towards parentheses and distinguished values so that groups are opened and closed
         weights = [4 if t.value in ("(", ")", "=>", "{") else 1 for t in classes]
@@ -199,6 +222,64 @@ def random_sequences(ctx, shard, exprs):
                                               "tokens": " ".join(t.value for t in seq), "tb": short_tb(4)})
 
 
+def language_alphabet(exprs, lang):
+    from codelimit.common.Location import Location
+    from codelimit.common.Token import Token
+    from pygments.token import Token as T
+
+    vals = {"(", ")", "{", "}", "=", "=>", ":", ";", ",", "zz", "function", "const", "async", "def", "throws", "new", "record", "if", "class"}
+    for l, role, expr, base in exprs:
+        if l == lang:
+            vals |= set(distinguished_values(expr))
+    toks = []
+    for v in sorted(vals):
+        for k in (T.Keyword, T.Keyword.Declaration, T.Keyword.Type, T.Name, T.Name.Function, T.Punctuation, T.Operator, T.Literal.String):
+            toks.append((str(k), v))
+    return toks
+
+
+def call_sequences(ctx, shard, exprs):
+    """Reachable matcher states include whatever earlier calls in the same process left behind. Each language's real
+    extract_headers is called on a long series of token sequences (many of them ending inside an open parenthesis group, as
+    truncated files do), in one process, and the ambiguity error is watched for. Independent of how a language passes its patterns
+    to the matcher."""
+    from codelimit.common.Location import Location
+    from codelimit.common.Token import Token
+    from codelimit.languages import Languages
+    from pygments.token import string_to_tokentype
+
+    rng = rng_for(shard["seed"], "c15seq", shard["part"])
+    langs = sorted(Languages.by_name)
+    n = shard["rand"] // shard["parts"]
+    recent = []
+    for i in range(n):
+        lang = langs[(i + shard["part"]) % len(langs)]
+        alpha = language_alphabet(exprs, lang)
+        weights = [6 if v in ("(", ")", "=", "=>", "{") else 3 if v in ("async", "function", "const", "def", "zz") else 1 for _, v in alpha]
+        k = rng.randint(1, shard["rlen"])
+        seq = rng.choices(alpha, weights=weights, k=k)
+        if rng.random() < 0.5:
+            # a header-like prefix that stays open at the end of input, or a clean header start
+            pre = rng.choice([[("Token.Keyword.Declaration", "const")], []]) + [("Token.Name", "zz"), ("Token.Operator", "="), ("Token.Punctuation", "(")]
+            seq = (seq + pre) if rng.random() < 0.5 else (pre[:-1] + [("Token.Keyword", "async"), ("Token.Punctuation", "(")] + seq)
+        toks = [Token(Location(1, 1 + 2 * j), string_to_tokentype(t), v) for j, (t, v) in enumerate(seq)]
+        recent = (recent + [[lang, seq]])[-4:]
+        ctx.eval()
+        ctx.count("monitor.extract_headers_calls")
+        try:
+            Languages.by_name[lang].extract_headers(toks)
+        except ValueError as e:
+            if "Multiple transitions" in str(e):
+                ctx.violation("ambiguity_error_in_call_sequence", {"call_sequence": recent},
+                              {"language": lang, "error": str(e), "tokens": " ".join(v for _, v in seq)[:200],
+                               "previous_calls": [[l, " ".join(v for _, v in s)[:80]] for l, s in recent[:-1]]})
+                recent = []
+            else:
+                ctx.count("other_exceptions_judged_by_C03")
+        except Exception:
+            ctx.count("other_exceptions_judged_by_C03")
+
+
 def run(shard, ctx):
     exprs = expressions()
     if shard["part"] == 0:
@@ -214,6 +295,7 @@ def run(shard, ctx):
         ctx.sample({"language": lang, "role": role, "expression": describe(expr), "configurations": n_cfg,
                     "token_classes": n_cls})
     random_sequences(ctx, shard, exprs)
+    call_sequences(ctx, shard, exprs)
 
 
 def replay(case, ctx):
@@ -222,6 +304,19 @@ def replay(case, ctx):
     from pygments.token import string_to_tokentype
     from codelimit.common.gsm import matcher
 
+    if "call_sequence" in case:
+        from codelimit.languages import Languages
+        for lang, seq in case["call_sequence"]:
+            toks = [Token(Location(1, 1 + 2 * j), string_to_tokentype(t), v) for j, (t, v) in enumerate(seq)]
+            ctx.eval()
+            try:
+                Languages.by_name[lang].extract_headers(toks)
+            except ValueError as e:
+                if "Multiple transitions" in str(e):
+                    ctx.violation("ambiguity_error_in_call_sequence", case, {"language": lang, "error": str(e)})
+            except Exception:
+                pass
+        return
     exprs = [e for e in expressions() if e[3]["language"] == case["language"] and e[3]["index"] == case["index"]
              and e[3]["role"] == case["role"]]
     if not exprs:
